@@ -329,6 +329,16 @@ fn mode_iotimer(ctx: &Ctx) {
 fn mode_spin(ctx: &Ctx) {
     let n = envn("MAYV_N", 300);
     let half = Arc::new(AtomicBool::new(false));
+    let done = Arc::new(AtomicBool::new(false));
+    // a thread with a pending deadline at any time: the harness treats a worker in its zero-timeout idle wait (select
+    // returned Some(0), the poll found nothing) as an idle poller and lets virtual time pass only for somebody else's sake
+    let d2 = done.clone();
+    let tick = ctx.spawn("tick", move || {
+        let c = mayv::ctx();
+        while !d2.load(SeqCst) {
+            c.sleep_ns(200_000);
+        }
+    });
     let h1 = half.clone();
     let a = logged(auxj(), || unsafe {
         may::coroutine::spawn(move || {
@@ -341,7 +351,7 @@ fn mode_spin(ctx: &Ctx) {
         })
     });
     while !half.load(SeqCst) {
-        ctx.yield_now();
+        ctx.sleep_ns(100_000);
     }
     let t0 = ctx.now();
     let ran = Arc::new(AtomicU64::new(0));
@@ -357,6 +367,8 @@ fn mode_spin(ctx: &Ctx) {
         ctx.fail(format!("STARVED: a coroutine in the global queue of a busy worker ran {d} ns after its spawn"));
     }
     a.join().ok();
+    done.store(true, SeqCst);
+    ctx.join(tick);
 }
 
 extern "C" {
